@@ -55,7 +55,9 @@ def getSolver : M Nat := do
     M.modifyFe fun fe => { fe with solver := some r }
     addConstraints
   else if fe.finalized && !fe.toAdd.isEmpty then
-    let r ← cloneSolver (fe.solver.getD 0)          -- BackendZ3 has clone_solver
+    -- BackendZ3 has clone_solver; not used with reuse_z3_solver nor for tracked frontends
+    let s ← M.get
+    let r ← if s.reuse || fe.track then backendSolver else cloneSolver (fe.solver.getD 0)
     M.modifyFe fun fe => { fe with solver := some r }
     addConstraints
   let fe ← M.getFe
@@ -129,7 +131,8 @@ def fullLayer (E : Env) : Layer := fun self sup =>
         let _ ← z3Satisfiable E r (extra.map ZCon.ofCon) (fun _ => pure ())
         let ids ← z3UnsatCore r
         let fe ← M.getFe
-        pure (ids.filterMap fun i => fe.constraints.find? fun c => c.id == i)
+        -- `_abstract` finds the claripy AST through `_ast_cache`, filled by `add(track=True)`
+        pure (ids.filterMap fun i => fe.constraints.find? fun c => c.zid == i)
     downsize := do
       sup.downsize
       M.modifyFe fun fe => { fe with solver := none, toAdd := [] }
